@@ -52,19 +52,104 @@ class Edit:
         return text[:idx] + self.new + text[idx + len(self.old):]
 
 
+    def overlay(self, base: Source) -> Optional[Dict[str, str]]:
+        try:
+            new_text = self.apply(base.read(self.file))
+        except AnalysisError:
+            return None
+        return None if new_text is None else {self.file: new_text}
+
+
+def apply_unified_diff(diff_text: str, read) -> Optional[Dict[str, str]]:
+    """Pure-Python application of a unified diff (modifications of existing text files only); None if a hunk does not apply."""
+    out: Dict[str, str] = {}
+    cur: Optional[str] = None
+    hunks: Dict[str, List[List[str]]] = {}
+    for line in diff_text.splitlines():
+        if line.startswith("+++ "):
+            path = line[4:].split("\t")[0].strip()
+            cur = path[2:] if path.startswith(("a/", "b/")) else path
+            if cur == "/dev/null":
+                return None
+            hunks.setdefault(cur, [])
+        elif line.startswith("--- ") or line.startswith("diff ") or line.startswith("index ") or line.startswith("new file") \
+                or line.startswith("deleted file") or line.startswith("similarity") or line.startswith("rename"):
+            if line.startswith(("new file", "deleted file", "rename")):
+                return None
+            continue
+        elif line.startswith("@@") and cur is not None:
+            hunks[cur].append([])
+        elif cur is not None and hunks.get(cur) and (line[:1] in (" ", "+", "-") or line == ""):
+            hunks[cur][-1].append(line if line else " ")
+        elif line.startswith("\\"):
+            continue
+    for path, hs in hunks.items():
+        try:
+            lines = read(path).split("\n")
+        except AnalysisError:
+            return None
+        pos = 0
+        for h in hs:
+            old = [l[1:] for l in h if l[0] in (" ", "-")]
+            new = [l[1:] for l in h if l[0] in (" ", "+")]
+            found = None
+            for start in range(pos, len(lines) - len(old) + 1):
+                if lines[start:start + len(old)] == old:
+                    found = start
+                    break
+            if found is None:
+                return None
+            lines[found:found + len(old)] = new
+            pos = found + len(new)
+        out[path] = "\n".join(lines)
+    return out or None
+
+
+class Patch:
+    """A multi-file variant given as a unified diff (path relative to /verif), optionally followed by single edits."""
+
+    def __init__(self, name: str, diff: str, then: Optional[List[Edit]] = None, expect: Optional[str] = None) -> None:
+        self.name, self.diff, self.then, self.expect = name, diff, list(then or []), expect
+        self.file = diff
+
+    def files(self) -> List[str]:
+        import os
+        from .core import VERIF_DIR
+        with open(os.path.join(VERIF_DIR, self.diff)) as f:
+            return [l[6:].strip() for l in f if l.startswith("+++ b/")]
+
+    def overlay(self, base: Source) -> Optional[Dict[str, str]]:
+        import os
+        from .core import VERIF_DIR
+        with open(os.path.join(VERIF_DIR, self.diff)) as f:
+            text = f.read()
+        ov = apply_unified_diff(text, base.read)
+        if ov is None:
+            return None
+        for e in self.then:
+            cur = ov.get(e.file)
+            if cur is None:
+                try:
+                    cur = base.read(e.file)
+                except AnalysisError:
+                    return None
+            new = e.apply(cur)
+            if new is None:
+                return None
+            ov[e.file] = new
+        return ov
+
+
 def _one(args) -> Dict[str, Any]:
     pid, repo, kind, edit, baseline = args
     from . import cli
     res: Dict[str, Any] = {"name": edit.name, "kind": kind, "file": edit.file}
     base = Source(repo)
-    try:
-        new_text = edit.apply(base.read(edit.file))
-    except AnalysisError:
-        new_text = None
-    if new_text is None:
+    ov = edit.overlay(base)
+    if ov is None:
         res["status"] = "skipped"
         return res
-    src = Source(repo, {edit.file: new_text})
+    src = Source(repo, ov)
     try:
         _, reports = cli.analyse_findings(pid, src)
         fs = [f for r in reports for f in r.findings if f.key not in baseline]
@@ -92,6 +177,15 @@ def run(pid: str, mod, repo: str, seed: int, jobs: int) -> Dict[str, Any]:
     baseline = frozenset(f.key for r in reports for f in r.findings)
     mutants: List[Edit] = list(getattr(mod, "MUTANTS", []))
     twins: List[Edit] = list(getattr(mod, "TWINS", []))
+    # corpus of behaviour-preserving refactorings (multi-file diffs written by independent agents, kept under
+    # /verif/refactorings): every one that touches a file this property consulted is a twin
+    import glob
+    import os
+    from .core import VERIF_DIR
+    for path in sorted(glob.glob(os.path.join(VERIF_DIR, "refactorings", "*.diff"))):
+        pt = Patch("refactoring " + os.path.basename(path)[:-5], os.path.relpath(path, VERIF_DIR))
+        if any(f in src.files_read for f in pt.files()):
+            twins.append(pt)
     tasks = [(pid, repo, "mutant", e, baseline) for e in mutants] + [(pid, repo, "twin", e, baseline) for e in twins]
     random.Random(seed).shuffle(tasks)
     if not tasks:
